@@ -166,18 +166,25 @@ class RxWorld:
                         continue
                     nodes.append(d)
         cfg = {'inputs': inputs, 'nodes': nodes, 'avoid': sorted(avoid)}
+        n_lazy = 0
+        if rng.random() < 0.5 and len(nodes) - n_in > 1:
+            n_lazy = rng.randint(1, min(4, len(nodes) - n_in - 1))
+            cfg['lazy_from'] = len(nodes) - n_lazy
         n_ops = min(50 if big else 30, 3 + int(rng.expovariate(1 / (14.0 if big else 9.0))))
         ops = []
         for _ in range(n_ops):
-            k = weighted(rng, [('set', 5), ('bad', 1.5), ('read', 7), ('watch', 1)])
+            k = weighted(rng, [('set', 5), ('bad', 1.5), ('read', 7), ('watch', 1), ('build', 1.5 if n_lazy else 0)])
+            if k == 'build':
+                ops.append({'op': 'build'})
+                continue
             if k in ('set', 'bad'):
                 i = rng.randrange(n_in)
                 t = inputs[i]['t']
                 ops.append({'op': 'set', 'i': i, 'v': self.gen_value(rng, t, valid=(k == 'set'))})
             elif k == 'read':
-                ops.append({'op': 'read', 'n': rng.randrange(len(nodes))})
+                ops.append({'op': 'read', 'n': rng.randrange(len(nodes) - n_lazy)})
             else:
-                ops.append({'op': 'watch', 'n': rng.randrange(len(nodes))})
+                ops.append({'op': 'watch', 'n': rng.randrange(len(nodes) - n_lazy)})
         return {'cfg': cfg, 'ops': ops}
 
     @staticmethod
@@ -399,7 +406,10 @@ class RxWorld:
                     else:
                         ops.append(op)
                 if len(new_nodes) > n_in:
-                    yield {**case, 'cfg': {**cfg, 'nodes': new_nodes}, 'ops': ops}
+                    c2 = {**cfg, 'nodes': new_nodes}
+                    if 'lazy_from' in cfg and j < cfg['lazy_from']:
+                        c2['lazy_from'] = cfg['lazy_from'] - 1
+                    yield {**case, 'cfg': c2, 'ops': ops}
         for i, inp in enumerate(cfg['inputs']):
             if inp['k'] != 'rx':
                 yield {**case, 'cfg': {**cfg, 'inputs': cfg['inputs'][:i] + [{**inp, 'k': 'rx'}] + cfg['inputs'][i + 1:]}}
@@ -468,7 +478,10 @@ class RxWorld:
             if isinstance(a, dict) and 'const' in a:
                 return a['const']
             return a
-        for j, d in enumerate(nodes):
+        lazy_from = cfg.get('lazy_from', len(nodes))
+
+        def build_node(j):
+            d = nodes[j]
             n = d['n']
             try:
                 if n == 'in':
@@ -505,11 +518,15 @@ class RxWorld:
             except Exception as ex:      # noqa
                 desc = {k: v for k, v in d.items() if k not in ('t', 'depth')}
                 viol('C09.operators', 0, f"building node {j} {desc} raised {type(ex).__name__}: {str(ex)[:140]}")
-                return out
+                return False
             if not isinstance(e, param.rx):
                 viol('C09.operators', 0, f"building node {j} {d} returned {type(e).__name__} instead of a reactive expression")
-                return out
+                return False
             built.append(e)
+            return True
+        for j in range(min(lazy_from, len(nodes))):
+            if not build_node(j):
+                return out
 
         def plain(j):
             try:
@@ -525,7 +542,7 @@ class RxWorld:
 
         def fallback_nodes():
             fb = set()
-            for a_, d_ in enumerate(nodes):
+            for a_, d_ in enumerate(nodes[:len(built)]):
                 if d_['n'] == 'attr' and plain(a_) == ('exc', 'AttributeError') and plain(d_['a']['node'])[0] == 'ok':
                     fb.add(a_)
             return fb
@@ -580,7 +597,7 @@ class RxWorld:
             return True
 
         # every node agrees right after construction
-        for j in range(len(nodes)):
+        for j in range(len(built)):
             if not check_read(0, j, 'initial read of'):
                 return out
         watches = {}        # node -> list of received values
@@ -605,7 +622,7 @@ class RxWorld:
                 after = {j: plain(j) for j in watches}
                 # helpers such as where() evaluate parts of the DAG eagerly when an input changes: an update may
                 # raise whenever some node currently raises in plain Python (watched or not)
-                anybad = any(plain(j)[0] == 'exc' for j in range(len(nodes)))
+                anybad = any(plain(j)[0] == 'exc' for j in range(len(built)))
                 if anybad:
                     raised_seen = True
                 if raised and not anybad:
@@ -618,10 +635,20 @@ class RxWorld:
                                 viol('C09.watch', step, f"after input {i} = {op['v']!r} the value of watched node {j} is {after[j][1]!r} but the callback last "
                                                         f"received {seen[-1] if seen else '<nothing>'!r}")
                                 break
-                if any(j in read_before for j in range(len(nodes))):
-                    pass
+            elif k == 'build':
+                # a new expression derived, mid-history, from expressions that may have been read and then invalidated
+                j = len(built)
+                if j >= len(nodes) or any(plain(x)[0] == 'exc' for x in range(j + 1)):
+                    continue        # expressions are built while everything they are built from evaluates
+                if not build_node(j):
+                    break
+                out.log.append(f"{step} build node {j}")
+                out.stats['probe.expression_built_mid_history'] += 1
+                if any(c in read_before for c in self.children(nodes[j])):
+                    out.stats['probe.built_from_previously_read_expression'] += 1
+                check_read(step, j, 'first read of late-built')
             elif k == 'read':
-                j = op['n'] % len(nodes)
+                j = op['n'] % len(built)
                 r = plain(j)
                 if r[0] == 'exc':
                     raised_seen = True
@@ -632,7 +659,7 @@ class RxWorld:
                 check_read(step, j, 'read of')
                 states.append(f"{nodes[j]['n']}|{r[0]}|{type(r[1]).__name__}")
             elif k == 'watch':
-                j = op['n'] % len(nodes)
+                j = op['n'] % len(built)
                 if j in watches or len(watches) >= 3 or plain(j)[0] == 'exc':
                     continue
                 seen = []
@@ -645,13 +672,13 @@ class RxWorld:
                 out.log.append(f"{step} watch node {j}")
         # final sweep: every node, after the whole history
         if not out.violations:
-            for j in range(len(nodes)):
+            for j in range(len(built)):
                 if not check_read(len(case['ops']) + 1, j, 'final read of'):
                     break
         if reread_after_change and raised_seen:
             out.sig = str(self.skeleton(case))
         out.states = tuple(states)
-        for d in nodes:
+        for d in nodes[:len(built)]:
             out.stats['node.' + d['n']] += 1
             if d['n'] == 'bin' and 'const' in (d['a'] if isinstance(d['a'], dict) else {}):
                 out.stats['probe.reflected_operator'] += 1
